@@ -421,9 +421,13 @@ func (v *SequenceDiagramVisitor) visitEndpoint(e *EndpointElement) error {
 		_, hitVisited := v.visited[visiting]
 
 		if (hitUpto && upto.ValueType != UpTo) || hitVisited {
+			// the endpoint is not expanded; its participant is activated only to
+			// carry the note of a blackbox
+			activated := false
 			if upto != nil {
 				if len(payload) > 0 {
 					v.w.Activate(agent)
+					activated = true
 					if len(upto.Comment) > 0 {
 						fmt.Fprintf(v.w, "note over %s: %s\n", agent, upto.Comment)
 					}
@@ -439,7 +443,9 @@ func (v *SequenceDiagramVisitor) visitEndpoint(e *EndpointElement) error {
 				if !isHidden {
 					fmt.Fprintf(v.w, "%s<--%s : %s\n", sender, agent, payload)
 				}
-				v.w.Deactivate(agent)
+				if activated {
+					v.w.Deactivate(agent)
+				}
 			}
 		} else {
 			deactivate := v.w.Activated(agent, isHuman || isCron)
